@@ -71,6 +71,7 @@ func newSubnet(config SubnetConfig) (*dhcpSubnet, error) {
 	subnet.DHCPServer = config.DHCPServer
 	subnet.DefaultGW = config.DefaultGW
 	subnet.FirstIP = config.FirstIP
+	subnet.nextIP = config.FirstIP // the allocation cursor is always a valid address
 	subnet.DNSServer = config.DNSServer
 
 	if !config.LAN.Contains(config.DefaultGW) {
